@@ -62,6 +62,14 @@ NEEDS = {
  "C18-dotted-import-root-name-guard": "a non-module-level un-aliased dotted import (import os.path) of a movable module whose ROOT name is bound otherwise in the module (parameter os=None, global os = ..., def os): hoisted to module level, the name resolves to the other object",
  "C19-declared-names-defs-renamed": "a name bound by def / async def / class that breaks its convention AND appears in a global / nonlocal statement: the definition is renamed, the declaration and the uses are not",
  "C20-ignore-bisect-closing-line": "a multi-line range whose last character is the first character of its last line (closing bracket alone in column 0) with the ignore comment on that closing line: the line is rewritten or deleted",
+ # wave 4 (8 changes, end of session 3)
+ "C01-move-before-loop-ignores-iterable": "a for loop whose body rebinds, by plain assignment of a loop-invariant value, a name the loop's ITERABLE reads (for job in pending: ...; pending = []): the assignment is hoisted in front of the loop",
+ "C02-iter-of-set-comprehension": "iter() directly around a SET comprehension whose elements contain duplicates, with output depending on the number of iterated items: rewritten to a plain generator",
+ "C04-charno-decode-strict": "non-ASCII source + a rule inserting code at an indented column of an existing line (common tail of an if/else that ends a function, no blank line below) where the next line has a multi-byte character straddling that byte offset: UnicodeDecodeError out of format_code",
+ "C06-bool-bounds-sorted-by-line-only": "one and/or chain containing the same numeric comparison twice on the same source line with another operand between them: which duplicate is dropped depends on object addresses (differs between processes)",
+ "C10-sort-by-range-start-only": "an insertion (empty range) and a replacement of a non-empty range starting at the same offset, scheduled together, with the inserted text sorting after the replacement text: applied in the wrong order at stale offsets",
+ "C14-constant-consistency-by-value": "a pattern using one wildcard twice and a candidate where one occurrence is a string literal whose content spells the source text of the other (1 == '1', d['k'] = k): treated as a match and rewritten",
+ "C19-static-extraction-name-collision-guard": ">= 2 base-less classes each with a @staticmethod of the same name and different bodies: both are extracted to module level as _<name>, the later definition captures the other's calls",
 }
 WAVE3 = {n for n in NEEDS if list(NEEDS).index(n) >= list(NEEDS).index("C01-breaks-out-of-skips-handlers")}
 for name in sorted(os.listdir(os.path.join(HERE, "seeded"))):
